@@ -80,6 +80,16 @@ def stress():
                  "import a from b; import a from b;", "import a from", "import { a from main;", "import a from main"):
         out.append(body + "\nfn main() { }\n")
         out.append(body + "\npub fn f() { }\npub fn a() { }\nfn main() { }\n")
+    # every kind of import x every name the host knows as something (and as something else)
+    for kind in ("", "type ", "templ ", "trigger "):
+        for mod, item in (("net", "ping"), ("net", "http"), ("net", "HttpResponse"), ("triggers", "minute"), ("templates", "FooFeature"), ("testing", "assert_eq"),
+                          ("testing", "any_list"), ("testing", "any_func"), ("hosta", "tag"), ("hostb", "num"), ("nowhere", "x"), ("net", "nothing")):
+            out.append("import %s%s from %s;\nfn main() { }\n" % (kind, item, mod))
+            out.append("import { %s%s, %sother } from %s;\nfn main() { %s; }\n" % (kind, item, kind, mod, item))
+    # functions with variable argument lists as values: compared, collected, passed on
+    for e in ("[print, println]", "print == println", "[println, fmt]", "new { p: print, q: println }", "if true { print } else { println }",
+              "match 1 { 1 => print, _ => println }", "[assert, debug, print]"):
+        out.append("fn main() { let v = %s; }\n" % e)
     out.append("import trigger minute from triggers;\nevent fn cb(e: int) { }\nlet a = { trigger cb at minute(1); 1 };\nfn main() { }\n")
     out.append("let a = { return 1; };\nlet b = { break; 2 };\nlet c = fn() -> int { 1 };\nfn main() { }\n")
     out.append("fn main() { let x = 9223372036854775808; }")
